@@ -26,25 +26,13 @@ def _obs(record):
     return {"kind": int(m.group(1)), "idle": [int(x) for x in m.group(4).split()]}
 
 
-def p_genret(case, record, expected_text):
+def p_handler_left(case, record, expected_text):
     o = _obs(record)
-    # with a joined-error host function around it (C15-N2) the leaking call returns the GoError instead
-    kind_ok = o is not None and (o["kind"] == 1 or (o["kind"] in (0, 2) and _has(case, lambda n: n.get("k") == "gojoin")))
-    return (kind_ok and _has(case, lambda n: n.get("t") == "genret")
-            and o["idle"][0] >= 1 and o["idle"][1] >= 2 and o["idle"][4] == 1)
-
-
-def p_join(case, record, expected_text):
-    o = _obs(record)
-    return (o is not None and o["kind"] in (0, 2) and _has(case, lambda n: n.get("t") == "nat" and n.get("k") == "gojoin")
-            and o["idle"][:3] == [0, 0, 0] and o["idle"][4] == 1)
-
-
-def p_join_iter(case, record, expected_text):
-    o = _obs(record)
-    return (o is not None and o["kind"] == 1 and _has(case, lambda n: n.get("t") == "nat" and n.get("k") == "gojoin")
+    return (o is not None and o["kind"] == 1
+            and _has(case, lambda n: n.get("t") == "pthrow")
             and _has(case, lambda n: n.get("t") == "forof" and n.get("ret"))
-            and o["idle"][0] == 0 and o["idle"][1] == 0 and o["idle"][2] >= 1 and o["idle"][4] == 0)
+            and _has(case, lambda n: n.get("t") in ("try", "genret"))
+            and o["idle"][0] == 0 and o["idle"][1] >= 1 and o["idle"][2] == 0 and o["idle"][4] == 0)
 
 
 def async_stage(ctx):
@@ -106,7 +94,7 @@ CFG = {
     "rule": ("generated control trees (events, probes, throw, loops, try/catch/finally, JS calls, sort/forEach/getter callbacks, "
              "Go->JS Callable and nested RunString with propagated or swallowed error, for-of over script iterators with/without "
              "return(), generator resumptions incl. return() through finally, async functions, promise jobs, host functions "
-             "returning the callback's error wrapped with %w / errors.Join; depth <= 4; 12% of programs under an active profiler), run through RunString or a Callable; "
+             "returning the callback's error wrapped with %w / errors.Join, host probes that interrupt and then throw; depth <= 4; 12% of programs under an active profiler), run through RunString or a Callable; "
              "for each program the undisturbed run, Interrupt(token_k) from the k-th probe() call for every k (stride <= 3 when "
              "> 14 probes), a quarter of them also with ClearInterrupt right after, Interrupt while idle with/without "
              "ClearInterrupt; compared: error kind + InterruptedError.Value(), the complete event log, VerifIdle "
@@ -128,15 +116,11 @@ CFG = {
         "promptness is counted in abstract instructions of the model and, on the implementation, as log/probe events after "
         "the Interrupt (no per-VM-instruction counter hook was added); never wall time",
         "sequentially consistent traces + Go sync/atomic and sync.Mutex synchronisation edges for the interleaving model",
-        "interrupt_clean is proved for every program of the model; the two open deviations of the code (C15-N1 generator "
-        "return() through finally, C15-N2 errors.Join-wrapped interrupt) are not represented in the model: such cases are "
-        "compared with the specification and classified by narrow predicates",
+        "interrupt_clean is proved for every program of the model, which includes generator return() through finally, "
+        "wrapped/joined interrupt errors from host functions and a pending interrupt while a catchable exception closes "
+        "iterators; open: C15-N4 (not represented in the model, classified by a narrow predicate)",
     ],
-    "predicates": {
-        "C15.interrupt_in_finally_run_by_generator_return": p_genret,
-        "C15.joined_interrupt_error_from_host_function": p_join,
-        "C15.iterator_close_interrupted_during_catchable_unwinding": p_join_iter,
-    },
+    "predicates": {"C15.handler_frame_left_when_iterator_close_is_interrupted_in_recover": p_handler_left},
     "manifest": {
         "text": ("proof (partial): over a Gallina transcription of the run loop, handleThrow and the frame discipline of every "
                  "Go<->JS re-entry, proved for all programs/positions/firing times: a set flag stops every run loop before its next "
@@ -144,7 +128,7 @@ CFG = {
                  "interrupts), an uncatchable payload reaches no catch/finally for every try stack, an idle interrupt aborts the "
                  "next call at its first instruction and leaves the runtime idle, and every interleaving of Interrupt calls with "
                  "run-loop polls is race-free on interruptVal by lock order. interrupt_clean (stacks idle, jobs dropped, flag cleared after every call) is "
-                 "proved for every program, without guard (F16/F20 repaired); open on the tree: C15-N1, C15-N2. "
+                 "proved for every program, without guard (F16/F20 repaired); open on the tree: C15-N4. "
                  "Missing: Go-level data-race freedom beyond the protocol (race detector on executed "
                  "schedules only). Tie: 1500/100000 generated cases with an interrupt at every probe position compare error, "
                  "token, full event log, VerifIdle and a follow-up run with the model; 200/5000 asynchronous interrupts under -race."),
